@@ -100,7 +100,7 @@ def create_command(
             f"The `{class_name}` does not support `stdout` pipe redirection."
         )
     elif stdout == asyncio.subprocess.DEVNULL:
-        stdout = "/dev/null"
+        stdout = " > /dev/null"
     elif stdout != asyncio.subprocess.STDOUT:
         stdout = f" > {shlex.quote(str(stdout))}"
     else:
